@@ -55,6 +55,11 @@ func (eng *Engine) VerifyFunction(fn *ssa.Function, key string, sp *FuncSpec) *U
 	c := NewCtx()
 	u := &Unit{eng: eng, c: c, m: NewMem(c), fn: fn, spec: sp, names: map[string]int{}, inlined: map[string]bool{}, extUsed: map[string]bool{}}
 	res.unit = u
+	u.m.sliceHook = func(s SliceV) {
+		if u.discov == 0 {
+			u.shapes = append(u.shapes, shapeRec{line: u.c.Len(), len: s.Len, cap: s.Cap})
+		}
+	}
 	if sp != nil && sp.Trusted {
 		res.Trusted = true
 		res.Vacuity = "n/a (trusted)"
